@@ -1,7 +1,7 @@
 (* Property C10 — path addressing is exact.  Only statements and [exact]; proofs live in Proofs/KeyPath*.v, Proofs/Hier*.v. *)
 From PG Require Import Common.Tactics Model.KeyPath Model.Hier
   Proofs.KeyPathParse Proofs.KeyPathArith Proofs.KeyPathOrder
-  Proofs.KeyPathSetBase Proofs.KeyPathSetIter Proofs.KeyPathSetThm Proofs.KeyPathSetEq Proofs.HierTraverse Proofs.HierFlatten.
+  Proofs.KeyPathSetBase Proofs.KeyPathSetIter Proofs.KeyPathSetThm Proofs.KeyPathSetEq Proofs.HierTraverse Proofs.HierQuery Proofs.HierFlatten.
 
 (* 1. A key path of admissible keys (integers; non-empty strings with balanced brackets) prints to a string
       that parses back to the same keys.  Any number of keys, any lengths. *)
@@ -146,6 +146,13 @@ Proof.
 Qed.
 Print Assumptions C10_query_sound_complete.
 
+(*    pg.query with enter_selected=False returns exactly the selected nodes that have no selected proper ancestor
+      (at_cut sel [] v p x: x is the node at p and no node strictly above it, the root included, is selected). *)
+Theorem C10_query_not_entering : forall sel v p x,
+  In (p, x) (squery sel false v) <-> at_cut sel [] v p x /\ sel p x = true.
+Proof. exact squery_not_entering_spec. Qed.
+Print Assumptions C10_query_not_entering.
+
 (* 7. utils.flatten(v, flatten_complex_keys=False) and utils.canonicalize are inverse on every nested value whose dict
       keys are distinct and admissible and that contains no dict canonicalize documents as a list
       (flat_ok; listable = non-empty, all keys ints, keys exactly 0..n-1).  Any depth, any width, lists and dicts mixed,
@@ -160,3 +167,8 @@ Theorem C10_listable_spec : forall kvs,
   (listable kvs = true -> Forall (fun kv => exists z, fst kv = KInt z) kvs).
 Proof. intros. split; [apply try_listify_keep | apply listable_needs_int_keys]. Qed.
 Print Assumptions C10_listable_spec.
+
+(*    With the default flatten_complex_keys=True the same holds when no string key contains '.', '[' or ']'. *)
+Theorem C10_flatten_canonicalize_default : forall v, flat_ok v -> simple_keys v -> canon true (flatten true v) = inr v.
+Proof. exact canon_flatten_default. Qed.
+Print Assumptions C10_flatten_canonicalize_default.
